@@ -1143,3 +1143,61 @@ def await_points(body):
         ap = apath(body, t['args'][0]) if t['args'] else None
         out.append(dict(poll=bi, switch=sb, ready=ready, pending=pending, awaited=ap, callee=callee_name(t)))
     return out
+
+
+def must_call_blocks(F, body, pat, argconsts=None, depth=0, _seen=None):
+    """Blocks of `body` whose call certainly performs an effect matching `pat`: a direct call of a callee matching pat, or a
+    call of a crate function all of whose return paths (for the constant arguments passed here - `helper(true)` folds the
+    `if flag` inside) pass such a block. Wrapper awareness for must-pass-through rules."""
+    _seen = _seen or set()
+    out = set()
+    for bi, t in body.calls():
+        nm = callee_name(t) or ''
+        if re.search(pat, nm):
+            out.add(bi)
+            continue
+        if depth >= 3:
+            continue
+        for q in F.call_targets(t, expand_traits=False):
+            qb = F.bodies.get(q)
+            if qb is None or qb.is_coroutine or q in _seen:
+                continue
+            consts = {}
+            for i, a in enumerate(t.get('args') or []):
+                v = const_val(a)
+                if v is not None:
+                    consts[i + 1] = v
+            if returns_only_through(F, qb, pat, consts, depth + 1, _seen | {body.path}):
+                out.add(bi)
+                break
+    return out
+
+
+def returns_only_through(F, body, pat, argconsts=None, depth=0, _seen=None):
+    """Every path from the entry of `body` to a return passes a block of must_call_blocks(pat); switches on a parameter
+    with a known constant value only follow the matching target."""
+    argconsts = argconsts or {}
+    through = must_call_blocks(F, body, pat, None, depth, _seen)
+    if not through:
+        return False
+    succ = [list(x) for x in body.succ]
+    for sb in body.live:
+        t = body.blocks[sb]['term']
+        if t['k'] != 'switch':
+            continue
+        p = op_place(t['discr'])
+        # the discriminant is the parameter itself or a plain copy of it
+        l = p['l'] if p and not place_proj(p) else None
+        for _ in range(4):
+            if l is None or 1 <= l <= body.argc:
+                break
+            ds = [d for d in body.whole_defs(l) if d[0] in body.live]
+            if len(ds) == 1 and ds[0][2] == 'assign' and ds[0][3]['rv']['k'] == 'use' and op_place(ds[0][3]['rv']['op']) and not place_proj(op_place(ds[0][3]['rv']['op'])):
+                l = op_place(ds[0][3]['rv']['op'])['l']
+            else:
+                l = None
+        if l is not None and l in argconsts:
+            tg = dict((v, b2) for v, b2 in t['targets'])
+            succ[sb] = [tg.get(argconsts[l], t['otherwise'])]
+    return not (set(body.returns()) & body.reachable(0, avoid=through, succ=succ))
+
